@@ -225,6 +225,7 @@ def canaries(cases):
     out.append(("context without span expected to be injected", c))
     for i, (_, c) in enumerate(out):
         c["orig"] = c["id"]
+        c["seed_id"] = c["id"]
         c["id"] = 10 ** 9 + i
     return out
 
@@ -279,8 +280,9 @@ def classify(ctx, cases, results, n):
         else:
             raise Broken("unknown verdict %r" % v)
     missing = [c["id"] for c in cases if c["id"] not in results]
-    if missing and not cnt["crash"]:
-        raise Broken("%d cases without a result" % len(missing))
+    if len(missing) != ctx.extra.get("cases_skipped_after_crash_cap", 0) and len(cases) > 1:
+        raise Broken("%d cases without a result (%s skipped after crashes)" % (
+            len(missing), ctx.extra.get("cases_skipped_after_crash_cap", 0)))
     if reported > MAX_REPORTS:
         ctx.extra["violations_not_written"] = reported - MAX_REPORTS
     return cnt
@@ -296,13 +298,15 @@ def replay_cases(ctx, exe, cases):
     results = propagation.run_cases(ctx, exe, cases, n, procs=4)
     check_sweeps(ctx, sweeps, seen, results)
     for why, c in can:
-        r = cres.get(c["id"])
+        # a canary is concretised exactly like the case it was copied from (seed_id), so: either the
+        # corrupted expectation is flagged, or the code under test already fails the genuine case
+        r = cres.get(c["id"], {}).get("v")
         orig = results.get(c["orig"], {}).get("v")
-        if r is not None and r.get("v") in ("bad", "crash"):
+        if r in ("bad", "crash") or orig in ("bad", "crash"):
             continue
-        if orig in ("bad", "crash") or (orig is None and any(x.get("v") == "crash" for x in results.values())):
-            continue        # the real code already fails on the uncorrupted case (reported below)
-        raise Broken("binding canary not detected (%s): %s" % (why, r))
+        if ctx.extra.get("cases_skipped_after_crash_cap") and (r is None or orig is None):
+            continue        # not run: too many crashes of the code under test (all reported)
+        raise Broken("binding canary not detected (%s): canary %s, genuine case %s" % (why, r, orig))
     ctx.extra["canaries_detected"] = len(can)
     cnt = classify(ctx, cases, results, n)
     if not ctx.violations and (cnt["valid"] == 0 or cnt["unchanged"] == 0):
